@@ -1,9 +1,37 @@
-/- Driver handlers, group Trans (stub; filled in by the group's model). -/
+/- Driver handlers, group Trans: Network/transformers.py (C16, C04, C03). -/
 import CC.Driver.Json
 import CC.Driver.LinAlg
+import CC.Model.Transform
 namespace CC
 open Lean
 
-def handlersTrans : List (String × Handler) := []
+def getKey (j : Json) : Except String (ElemKey GQ) := do
+  pure ⟨← getStr j "id", (getStr j "ty").toOption.getD "", ← getElem (← j.getObjVal? "e")⟩
+
+def getKeep (j : Json) : Except String (List (ElemKey GQ)) :=
+  match j.getObjVal? "keep" with
+  | .ok (.arr a) => a.toList.mapM getKey
+  | _ => pure []
+
+/-- op `transformer`: {"fn": name, "net": …, "keep": […], "arg": string} ↦ network or error -/
+def h_transformer : Handler := fun j => do
+  let N ← getNet (← j.getObjVal? "net")
+  let fn ← getStr j "fn"
+  let keep ← getKeep j
+  let arg := (getStr j "arg").toOption.getD ""
+  let r ← match fn with
+    | "switch_ground_node" => pure (switchGround N arg)
+    | "remove_element" => pure (removeElement N arg)
+    | "remove_open_circuit_elements" => pure (removeOpen N)
+    | "remove_short_circuit_elements" => pure (removeShort N keep)
+    | "short_circuitify_voltage_sources" => pure (shortCircuitifyVS N keep)
+    | "open_circuitify_current_sources" => pure (openCircuitifyCS N keep)
+    | "remove_ideal_current_sources" => pure (removeIdealCS N keep)
+    | "remove_ideal_voltage_sources" => pure (removeIdealVS N keep)
+    | "passive_network" => pure (passiveNetwork N keep)
+    | _ => throw s!"unknown transformer {fn}"
+  pure (jsonExcept jsonNet r)
+
+def handlersTrans : List (String × Handler) := [("transformer", h_transformer)]
 
 end CC
